@@ -41,11 +41,13 @@ func c12r1(rc *core.RC) {
 			rc.Unknown("json."+name+"/data", fn.Pos(), "no []byte parameter")
 			continue
 		}
-		// every transitive use of data (through slicing/conversion/phi)
+		// every transitive use of data (through slicing/conversion/phi), followed into module
+		// helpers that receive it (two levels): a helper may take the length and copy from it,
+		// and if it returns (a slice of) its argument the result is the caller's memory again
 		seen := map[ssa.Value]bool{}
-		var visit func(v ssa.Value)
+		var visit func(v ssa.Value, depth int, retTaint *bool)
 		copied := false
-		visit = func(v ssa.Value) {
+		visit = func(v ssa.Value, depth int, retTaint *bool) {
 			if seen[v] {
 				return
 			}
@@ -55,14 +57,18 @@ func c12r1(rc *core.RC) {
 				switch x := r.(type) {
 				case *ssa.DebugRef:
 				case *ssa.Slice:
-					visit(x)
+					visit(x, depth, retTaint)
 				case *ssa.Phi:
-					visit(x)
+					visit(x, depth, retTaint)
 				case *ssa.ChangeType:
-					visit(x)
+					visit(x, depth, retTaint)
 				case *ssa.Call:
 					if _, ok := isBuiltinCall(x, "len"); ok {
 						rc.OK(key+"/len", core.SSAPos(x), "length only")
+						continue
+					}
+					if _, ok := isBuiltinCall(x, "cap"); ok {
+						rc.OK(key+"/cap", core.SSAPos(x), "capacity only")
 						continue
 					}
 					if c, ok := isBuiltinCall(x, "copy"); ok {
@@ -74,14 +80,35 @@ func c12r1(rc *core.RC) {
 						rc.Bad(key+"/copy-dst", core.SSAPos(x), "the caller's input is the destination of a copy: Unmarshal writes to its input")
 						continue
 					}
+					if callee := x.Call.StaticCallee(); callee != nil && callee.Blocks != nil && depth < 2 && callee.Pkg != nil && strings.HasPrefix(callee.Pkg.Pkg.Path(), core.ModPath) {
+						followed := false
+						for i, a := range x.Call.Args {
+							if a == v && i < len(callee.Params) {
+								followed = true
+								rt := false
+								visit(callee.Params[i], depth+1, &rt)
+								if rt {
+									// the helper hands its argument back: the result is still the caller's memory
+									visit(x, depth, retTaint)
+								}
+							}
+						}
+						if followed {
+							continue
+						}
+					}
 					rc.Bad(key+"/call", core.SSAPos(x), "the caller's input bytes are passed to %s: decoding may retain or modify them", describeCall(x.Common()))
 				case *ssa.Store:
-					if name == "extractFromPath" {
+					if name == "extractFromPath" && depth == 0 {
 						rc.Note(key+"/returned-as-is", core.SSAPos(x), "the root-selector shortcut returns the input slice itself (Extract is outside C12's wording)")
 						continue
 					}
 					rc.Bad(key+"/store", core.SSAPos(x), "the caller's input slice is stored (%s): library state aliases caller memory", x.Addr.String())
 				case *ssa.Return:
+					if depth > 0 && retTaint != nil {
+						*retTaint = true
+						continue
+					}
 					rc.Bad(key+"/return", core.SSAPos(x), "the caller's input slice is returned")
 				case *ssa.IndexAddr:
 					// element address: reads are fine, writes are not
@@ -95,7 +122,7 @@ func c12r1(rc *core.RC) {
 				}
 			}
 		}
-		visit(data)
+		visit(data, 0, nil)
 		rc.Check(copied, "json."+name+"/private-copy", fn.Pos(), "the input is copied into a buffer the decoder owns")
 	}
 }
